@@ -22,6 +22,7 @@ def check(ctx):
     from . import c08
     ctx.sub(c08.execution)             # once those orders fill: every order returned is submitted, none filtered
     from . import c04
+    ctx.sub(c04.s5_whole_batch)        # (sells of the rebalance free the cash its buys need: sells first across the whole batch)
     ctx.sub(c04.s2_s3_update)          # ... and filled in the portfolio it was submitted for (the one whose holdings the target was computed against)
 
 
